@@ -219,7 +219,7 @@ def prepare(tier: str, seed: int) -> None:
             _sa_base(w, i)
 
 
-WITNESS_VALUES = {"str": ["", "'", "a%", "\\", "';--", "\x00"], "int": [0, -1, 123456789], "pick": [0, 1, 2]}
+WITNESS_VALUES = {"str": ["", "'", "a%", "\\", "';--", "\x00", "e\u0301", "\u212a", "\ufb01", "A\u030a"], "int": [0, -1, 123456789], "pick": [0, 1, 2]}
 
 
 def main() -> int:
@@ -270,11 +270,27 @@ def main() -> int:
                 except exceptions.ODataException:
                     continue
                 same = s1 == b0 or (NORM.get(KID_SA_ESCAPE) and s1.replace(" ESCAPE '/'", "") == b0.replace(" ESCAPE '/'", ""))
-                if not same or (isinstance(val, str) and len(val) > 1 and val in s1):
+                # the value reaches the driver unchanged (code point for code point; LIKE positions may wrap / escape it)
+                exact = (not isinstance(val, (str, int))) or p["like"] or p["kind"] == "pick" or any(
+                    type(x) is type(val) and x == val for x in prm) or (isinstance(val, str) and val == "" and p["like"])
+                if not same or not exact or (isinstance(val, str) and len(val) > 1 and val in s1):
                     bad += 1
                     run.violation(f"sa-compiled:{p['desc']}:{val!r}", {"position": p["desc"], "value": val, "backend": ["sa_orm", "sa_core"][w],
                                                                        "sql": s1, "baseline_sql": b0},
-                                  f"compiled SQL depends on the literal value {val!r}: {s1!r} vs {b0!r}", family="sqlalchemy-compiled")
+                                  (f"compiled SQL depends on the literal value {val!r}: {s1!r} vs {b0!r}" if not same else
+                                   f"the literal {val!r} does not reach the parameter list unchanged: {prm!r}"), family="sqlalchemy-compiled")
+    for i, p in enumerate(POSITIONS):
+        if p["kind"] != "str" or p["like"]:
+            continue
+        for val in WITNESS_VALUES["str"]:
+            try:
+                sql, prm = dj_sql(p["mk"](val))
+            except (exceptions.ODataException, ValueError):
+                continue
+            if not any(isinstance(x, str) and x == val for x in prm) or (len(val) > 1 and val in sql):
+                run.violation(f"django-params:{p['desc']}:{val!r}", {"position": p["desc"], "value": val, "backend": "django", "sql": sql,
+                                                                     "params": [repr(x) for x in prm]},
+                              f"the literal {val!r} does not reach Django's parameter list unchanged: {prm!r}", family="django-params")
     run.extra["sqlalchemy_compiled_rechecks"] = sum(len(WITNESS_VALUES[p["kind"]]) * 2 for p in POSITIONS)
     items: List[Item] = []
     sb = 2 if quick else 3
